@@ -6,6 +6,7 @@ CONSTANTS
   KVals <- KValsT
   Eps <- Eps64
   MaxGenExtra = 8
+  SpanInterior = 8
 INVARIANT T_SpanUnique
 INVARIANT T_SpanAlgos
 INVARIANT T_BasisFuns
